@@ -5,6 +5,7 @@ import z3
 from decimal import Decimal
 
 from .interp import (Panic, Unsupported, HarnessStop, resolve, exec_func, binop, to_bv, to_bool, ty_bits, norm_type)
+from .vals import inner_ref as R
 from .vals import (Agg, VecV, MapV, SymStr, CellV, Ref, FnPtr, Opaque, PathV, FmtV, UNIT, NONE, some, ok, err, tup, is_sym,
                    seq_items, rebuild_seq, assemble, deref_all as D)
 from .bi_core import it_seq, sym_eq, map_key, as_it, it_drain, znot
@@ -377,6 +378,8 @@ def install(prog):
     @B('<_ as Into>::into', '<_ as From>::from', '<_ as ToOwned>::to_owned', '<_ as AsRef>::as_ref', '<_ as Borrow>::borrow', '<_ as Clone>::clone')
     def b_generic_into(ctx, a, callee):
         v = D(a[0])
+        if re.search(r'AsRef<(std::path::)?Path>', callee) and type(v) is str:
+            return to_path(v)
         m = re.match(r'^<(.*) as (?:Into|From)<(.*)>>::(into|from)$', callee, re.S)
         if m:
             dst = m.group(2) if m.group(3) == 'into' else m.group(1)
@@ -509,14 +512,14 @@ def install(prog):
 
     @B('String::push', 'std::string::String::push')
     def b_string_push(ctx, a, callee):
-        s = a[0].load()
-        a[0].store(assemble([s, char_to_str(ctx, D(a[1]))]))
+        s = R(a[0]).load()
+        R(a[0]).store(assemble([s, char_to_str(ctx, D(a[1]))]))
         return UNIT
 
     @B('String::push_str', 'std::string::String::push_str', '<std::string::String as AddAssign>::add_assign', '<String as AddAssign>::add_assign')
     def b_string_push_str(ctx, a, callee):
-        s = a[0].load()
-        a[0].store(assemble([s, D(a[1])]))
+        s = R(a[0]).load()
+        R(a[0]).store(assemble([s, D(a[1])]))
         return UNIT
 
     @B('<std::string::String as Add>::add', '<String as Add>::add')
@@ -529,16 +532,16 @@ def install(prog):
 
     @B('String::clear', 'std::string::String::clear')
     def b_string_clear(ctx, a, callee):
-        a[0].store('')
+        R(a[0]).store('')
         return UNIT
 
     @B('String::pop', 'std::string::String::pop')
     def b_string_pop(ctx, a, callee):
-        s = a[0].load()
+        s = R(a[0]).load()
         if type(s) is str:
             if not s:
                 return NONE
-            a[0].store(s[:-1])
+            R(a[0]).store(s[:-1])
             return some(ord(s[-1]))
         bs = sbytes(s)
         if not bs:
@@ -547,14 +550,14 @@ def install(prog):
         if is_sym(last):
             if not ctx.branch(z3.ULT(last, 0x80)):
                 raise Unsupported('symbolic non-ASCII pop')
-            a[0].store(mkstr(bs[:-1]))
+            R(a[0]).store(mkstr(bs[:-1]))
             return some(z3.ZeroExt(24, last))
         raise Unsupported('String::pop on mixed string')
 
     @B('String::truncate', 'std::string::String::truncate')
     def b_string_truncate(ctx, a, callee):
-        s = a[0].load()
-        a[0].store(mkstr(sbytes(s)[:a[1]]))
+        s = R(a[0]).load()
+        R(a[0]).store(mkstr(sbytes(s)[:a[1]]))
         return UNIT
 
     @B('String::from_utf8', 'std::string::String::from_utf8', 'core::str::from_utf8', 'std::str::from_utf8')
@@ -1080,19 +1083,19 @@ def install(prog):
 
     @B('BTreeMap::insert', 'HashMap::insert')
     def b_map_insert(ctx, a, callee):
-        m = a[0].load()
+        m = R(a[0]).load()
         k = map_key(a[1])
         old = m.get(k)
         had = m.has(k)
-        a[0].store(m.insert(k, a[2]))
+        R(a[0]).store(m.insert(k, a[2]))
         return some(old) if had else NONE
 
     @B('BTreeSet::insert', 'HashSet::insert')
     def b_set_insert(ctx, a, callee):
-        m = a[0].load()
+        m = R(a[0]).load()
         k = map_key(a[1])
         had = m.has(k)
-        a[0].store(m.insert(k, UNIT))
+        R(a[0]).store(m.insert(k, UNIT))
         return not had
 
     @B('BTreeMap::get', 'HashMap::get', 'BTreeSet::get', 'HashSet::get')
@@ -1118,25 +1121,25 @@ def install(prog):
         k = map_key(a[1])
         if not m.has(k):
             return NONE
-        cell = CellV(m.get(k))
-        # write-back proxy: a Ref into a one-slot cell, flushed on store via MapRef
         return some(MapRef(r, k, m))
 
-    class MapRef(Ref):
+    class MapSlot:
+        """root container of a reference to a map value: reads and writes go through to the map (which is itself an
+        immutable value behind `mref`)"""
         __slots__ = ('mref', 'mkey')
 
-        def __init__(self, mref, k, m, path=()):
+        def __init__(self, mref, k):
             self.mref = mref
             self.mkey = k
-            Ref.__init__(self, [m.get(k)], 0, path)
 
-        def store(self, new):
-            Ref.store(self, new)
-            self.mref.store(self.mref.load().insert(self.mkey, self.cont[0]))
+        def __getitem__(self, i):
+            return self.mref.load().get(self.mkey)
 
-        def extend(self, elem):
-            r = MapRef(self.mref, self.mkey, self.mref.load(), self.path + (elem,))
-            return r
+        def __setitem__(self, i, v):
+            self.mref.store(self.mref.load().insert(self.mkey, v))
+
+    def MapRef(mref, k, m=None, path=()):
+        return Ref(MapSlot(mref, k), 0, path)
 
     @B('BTreeMap::contains_key', 'HashMap::contains_key', 'BTreeSet::contains', 'HashSet::contains')
     def b_map_contains(ctx, a, callee):
@@ -1151,19 +1154,19 @@ def install(prog):
 
     @B('BTreeMap::remove', 'HashMap::remove')
     def b_map_remove(ctx, a, callee):
-        m = a[0].load()
+        m = R(a[0]).load()
         k = map_key(a[1])
         if not m.has(k):
             return NONE
-        a[0].store(m.remove(k))
+        R(a[0]).store(m.remove(k))
         return some(m.get(k))
 
     @B('BTreeSet::remove', 'HashSet::remove')
     def b_set_remove(ctx, a, callee):
-        m = a[0].load()
+        m = R(a[0]).load()
         k = map_key(a[1])
         had = m.has(k)
-        a[0].store(m.remove(k))
+        R(a[0]).store(m.remove(k))
         return had
 
     @B('BTreeMap::len', 'HashMap::len', 'BTreeSet::len', 'HashSet::len')
@@ -1176,29 +1179,29 @@ def install(prog):
 
     @B('BTreeMap::clear', 'HashMap::clear', 'HashSet::clear', 'BTreeSet::clear')
     def b_map_clear(ctx, a, callee):
-        a[0].store(MapV(a[0].load().kind))
+        R(a[0]).store(MapV(R(a[0]).load().kind))
         return UNIT
 
     @B('BTreeMap::append')
     def b_map_append(ctx, a, callee):
-        m = a[0].load()
-        o = a[1].load()
+        m = R(a[0]).load()
+        o = R(a[1]).load()
         for k, v in o.items:
             m = m.insert(k, v)
-        a[0].store(m)
-        a[1].store(MapV(o.kind))
+        R(a[0]).store(m)
+        R(a[1]).store(MapV(o.kind))
         return UNIT
 
     @B('re:^<(BTreeMap|HashMap|BTreeSet|HashSet) as Extend>::extend$')
     def b_map_extend(ctx, a, callee):
-        m = a[0].load()
+        m = R(a[0]).load()
         for x in it_drain(ctx, as_it(ctx, a[1])):
             x = D(x)
             if m.kind.endswith('Set'):
                 m = m.insert(map_key(x), UNIT)
             else:
                 m = m.insert(map_key(x.fields[0]), x.fields[1])
-        a[0].store(m)
+        R(a[0]).store(m)
         return UNIT
 
     @B('re:^<(BTreeMap|HashMap|BTreeSet|HashSet) as From>::from$')
